@@ -1,11 +1,11 @@
 package mon
 
 import (
-	"unicode"
-	"unicode/utf8"
 	"math/rand/v2"
 	"regexp"
 	"strings"
+	"unicode"
+	"unicode/utf8"
 
 	"github.com/gookit/rux"
 )
